@@ -66,6 +66,25 @@ C10_SharedBelongsToBoth ==
 
 HasRef == "ref" \in DOMAIN T
 
+(* ---------------- C15: stereo information against the uncut molecule ---------------- *)
+(* reftoks = the uncut molecule as one fragment text (atom i of it is reference atom i + 1) *)
+HasStereo == "reftoks" \in DOMAIN T
+RefRel == {<<r[1] + 1, r[2] + 1, r[3] + 1, r[4] + 1, r[5]>> : r \in F!FragRel(T.reftoks)}
+ObsRelRaw == UNION {{<<t[1], t[2], t[3], t[4], t[5]>> : t \in ToSet(n.ez)} : n \in FNodes(O)}
+InWit(p) == p \in DOMAIN WitMap
+C15_PathExists ==
+  \A t \in ObsRelRaw :
+     /\ t[1] \in FIds(O) /\ t[2] \in FIds(O) /\ t[3] \in FIds(O) /\ t[4] \in FIds(O)
+     /\ EdgeBetween(O, t[1], t[2]) # {} /\ EdgeBetween(O, t[3], t[4]) # {}
+     /\ \E e \in EdgeBetween(O, t[2], t[3]) : e[3] = 4
+C15_Relation ==
+  /\ \A t \in ObsRelRaw : InWit(t[1]) /\ InWit(t[2]) /\ InWit(t[3]) /\ InWit(t[4])
+  /\ {<<WitMap[t[1]], WitMap[t[2]], WitMap[t[3]], WitMap[t[4]], t[5]>> : t \in ObsRelRaw} = RefRel
+RefChiral == F!ChiralOf(T.reftoks)
+C15_Chiral ==
+  \A n \in HeavyFine : n.id \in DOMAIN WitMap =>
+     IF (WitMap[n.id] - 1) \in DOMAIN RefChiral THEN n.chiral = RefChiral[WitMap[n.id] - 1] ELSE n.chiral = ""
+
 (* ---------------- C11: the twin configuration without virtual nodes / zero-order edges ---------------- *)
 HasTwin == "twin" \in DOMAIN T
 Core(n) == <<n.id, n.el, n.name_el, n.chg, n.isH, IF T.allAtom THEN "" ELSE n.name>>
@@ -118,6 +137,10 @@ Verdict ==
            C12_Contiguous |-> C12_Contiguous(C, O),
            C12_AtomNames |-> C12_AtomNames(C, O),
            C11_SameMolecule |-> HasTwin => C11_SameMolecule,
+           C15_PathExists |-> HasStereo => C15_PathExists,
+           C15_Relation |-> HasStereo => C15_Relation,
+           C15_Chiral |-> HasStereo => C15_Chiral,
+           nrel |-> IF HasStereo THEN Cardinality(RefRel) ELSE 0,
            C01_Original |-> HasRef => C01_Original,
            C10_SharedBelongsToBoth |-> HasRef => C10_SharedBelongsToBoth ]
 
